@@ -95,6 +95,14 @@ def iri_ids_denote(oP: Any, oN: Any, P: Any, N: Any, pk: Any, nk: Any, en: Any, 
     return And(name_ok, Ite(en, prefix_on, prefix_off))
 
 
+def enc_unchanged(A: Any, B: Any) -> Any:
+    """one LookupEncoder (with its ghost table) is exactly as before"""
+    return And(od_unchanged(A.lookup.data, B.lookup.data), A.last_assigned_index == B.last_assigned_index,
+               A.last_reused_index == B.last_reused_index, A.T.tbl == B.T.tbl, A.T.dfn == B.T.dfn, A.T.la == B.T.la,
+               A.T.lr == B.T.lr, A.T.size == B.T.size, A.lookup.key_at == B.lookup.key_at,
+               A.lookup._evicting == B.lookup._evicting)
+
+
 def lru_step(o: Any, d: Any, size: Any, by: Any) -> Any:
     """ghost LRU accounting of one table over a call that uses at most `by` keys"""
     return And(d.mark == o.mark, d.t <= o.t + by, Implies(o.t + by <= size, od_stable(o, d)))
@@ -219,8 +227,7 @@ class _encode_literal:
             "plain": Implies(And(Not(has_lang), Not(need)), which_unset(L, "literalKind")),
             "rows-account-for-table-changes": rows_account(O, E, e.result.items),
             "one-entry-row-per-miss": n_rows(e.result) == Ite(And(need, Not(od_has(oD.lookup.data, dt))), 1, 0),
-            "no-datatype-no-change": Implies(Not(need), And(od_unchanged(D.lookup.data, oD.lookup.data),
-                                                           D.T.lr == oD.T.lr, D.T.la == oD.T.la)),
+            "no-datatype-no-change": Implies(Not(need), enc_unchanged(D, oD)),
             "message-written": msg_written(L),
             "lru-datatypes": lru_step(oD.lookup.data, D.lookup.data, D.lookup.max_size, Ite(need, 1, 0)),
             "sizes-fixed": D.lookup.max_size == oD.lookup.max_size,
@@ -238,26 +245,10 @@ inline(f"{SE}:TermEncoder.encode_spo")      # base implementation: two lines tha
 inline(f"{SE}:TermEncoder.encode_graph")
 
 # ------------------------------------------------------------------------ GenericSinkTermEncoder.encode_spo / graph
-from .terms import GTerm, needs_dt, occ_d, occ_n  # noqa: E402
+from .terms import GTerm, exc_of, needs_dt, occ_d, occ_n  # noqa: E402
 
 GS_SER = "pyjelly.integrations.generic.serialize"
 ONEOF_OF_SLOT = {0: ("subject", "s"), 1: ("predicate", "p"), 2: ("object", "o")}
-
-# which exception encoding a term ends in (0 none, 1 NotImplementedError, 2 JellyConformanceError); `dz` = the datatype
-# table is disabled.  One-level unfolding is supplied where it is used; the nested case follows the encoding order s,p,o.
-exc_of = z3.Function("exc_of", GTerm, z3.BoolSort(), z3.IntSort())
-
-
-def exc_unfold(t: Any, dz: Any) -> Any:
-    qs, qp, qo = GTerm.qs(t), GTerm.qp(t), GTerm.qo(t)
-    return And(
-        Implies(Or(GTerm.is_IRI(t), GTerm.is_BNode(t)), exc_of(t, dz) == 0),
-        Implies(GTerm.is_Lit(t), exc_of(t, dz) == z3.If(And(needs_dt(t), dz), 2, 0)),
-        Implies(Or(GTerm.is_Other(t), GTerm.is_DefaultGraph(t)), exc_of(t, dz) == 1),
-        Implies(GTerm.is_QTriple(t), exc_of(t, dz) == z3.If(exc_of(qs, dz) != 0, exc_of(qs, dz),
-                                                          z3.If(exc_of(qp, dz) != 0, exc_of(qp, dz), exc_of(qo, dz)))),
-        exc_of(t, dz) >= 0, exc_of(t, dz) <= 2)
-
 
 def slot_is_unset(st: Any, slot: Any) -> Any:
     return And(*[Implies(slot == j, which_unset(st, ONEOF_OF_SLOT[j][0])) for j in (0, 1, 2)])
@@ -315,6 +306,10 @@ def term_in_slot(e: Any, st: Any, slot: Any, t: Any, E: Any, O: Any) -> Any:
 def lru_all(O: Any, E: Any, t: Any) -> dict:
     en = E.prefixes.lookup.max_size > 0
     return {
+        # tables a term does not use are not touched at all (needed to chain the delta bases through a statement)
+        "unused-tables-untouched": And(
+            Implies(Or(GTerm.is_BNode(t), GTerm.is_Lit(t)), And(enc_unchanged(E.names, O.names), enc_unchanged(E.prefixes, O.prefixes))),
+            Implies(Or(GTerm.is_IRI(t), GTerm.is_BNode(t), And(GTerm.is_Lit(t), Not(needs_dt(t)))), enc_unchanged(E.datatypes, O.datatypes))),
         "lru-names": lru_step(O.names.lookup.data, E.names.lookup.data, E.names.lookup.max_size, occ_n(t)),
         "lru-prefixes": lru_step(O.prefixes.lookup.data, E.prefixes.lookup.data, E.prefixes.lookup.max_size, Ite(en, occ_n(t), 0)),
         "lru-datatypes": lru_step(O.datatypes.lookup.data, E.datatypes.lookup.data, E.datatypes.lookup.max_size, occ_d(t)),
@@ -335,7 +330,7 @@ class _generic_encode_spo:
 
     def requires(e):
         dz = e.self.datatypes.lookup.max_size == 0
-        return And(wf_te(e.self), e.slot >= 0, e.slot <= 2, slot_is_unset(e.statement, e.slot), exc_unfold(e.term, dz))
+        return And(wf_te(e.self), e.slot >= 0, e.slot <= 2, slot_is_unset(e.statement, e.slot))
 
     def raises(e):
         dz = e.self.datatypes.lookup.max_size == 0
@@ -343,6 +338,10 @@ class _generic_encode_spo:
 
     def on_raise(e):
         return {"tables-still-well-formed": wf_te(e.self)}
+
+    def case_split(e):
+        # callers reason about the delta bases, which only IRIs move: fork on that instead of leaving it to the solver
+        return {"iri": GTerm.is_IRI(e.term), "not-iri": Not(GTerm.is_IRI(e.term))}
 
     def ensures(e):
         E, O = e.self, e.old.self
@@ -360,12 +359,12 @@ class _encode_quoted_triple:
     params = {"self": OBJ(GENC), "terms": ADTS("gterm"), "quoted_statement": MSG("RdfTriple")}
     result = ROWS
     modifies = ["self.names", "self.prefixes", "self.datatypes", "quoted_statement"]
+    touches = ["quoted_statement"]
 
     def requires(e):
         dz = e.self.datatypes.lookup.max_size == 0
         t = e.terms
-        return And(wf_te(e.self), GTerm.is_QTriple(t), exc_unfold(t, dz),
-                   exc_unfold(GTerm.qs(t), dz), exc_unfold(GTerm.qp(t), dz), exc_unfold(GTerm.qo(t), dz),
+        return And(wf_te(e.self), GTerm.is_QTriple(t),
                    which_unset(e.quoted_statement, "subject"), which_unset(e.quoted_statement, "predicate"),
                    which_unset(e.quoted_statement, "object"))
 
@@ -386,4 +385,197 @@ class _encode_quoted_triple:
                                              Not(which_unset(q, "object"))),
                "message-written": msg_written(q)}
         out.update(lru_all(O, E, e.terms))
+        return out
+
+
+def graph_in_slot(st: Any, t: Any, E: Any, O: Any) -> Any:
+    en = E.prefixes.lookup.max_size > 0
+    pk, nk = enc_keys(GTerm.iri(t), en)
+    return And(
+        Implies(GTerm.is_DefaultGraph(t), which_is(st, "g_default_graph")),
+        Implies(GTerm.is_IRI(t), And(which_is(st, "g_iri"),
+                                     iri_ids_denote(O.prefixes, O.names, E.prefixes, E.names, pk, nk, en, st.g_iri.prefix_id, st.g_iri.name_id),
+                                     Ite(en, z3.Concat(pk, nk) == GTerm.iri(t), nk == GTerm.iri(t)))),
+        Implies(GTerm.is_BNode(t), And(which_is(st, "g_bnode"), st.g_bnode == GTerm.ident(t))),
+        Implies(GTerm.is_Lit(t), And(which_is(st, "g_literal"), lit_fields_ok(st.g_literal, t, E.datatypes))))
+
+
+def graph_exc(t: Any, dz: Any) -> Any:
+    """0 none, 1 NotImplementedError, 2 JellyConformanceError for a graph-name term"""
+    return z3.If(Or(GTerm.is_Other(t), GTerm.is_QTriple(t)), 1, z3.If(And(GTerm.is_Lit(t), needs_dt(t), dz), 2, 0))
+
+
+def graph_occ_n(t: Any) -> Any:
+    return z3.If(GTerm.is_IRI(t), 1, 0)
+
+
+def graph_occ_d(t: Any) -> Any:
+    return z3.If(And(GTerm.is_Lit(t), needs_dt(t)), 1, 0)
+
+
+@contract(f"{GS_SER}:GenericSinkTermEncoder.encode_graph", serves=["C03", "C01", "C19", "C18", "C20", "C15"])
+class _generic_encode_graph:
+    params = {"self": OBJ(GENC), "term": ADTS("gterm"), "statement": MSG("RdfQuad")}
+    result = ROWS_UPTO(2)
+    modifies = ["self.names", "self.prefixes", "self.datatypes", "statement"]
+
+    def requires(e):
+        return And(wf_te(e.self), which_unset(e.statement, "graph"))
+
+    def raises(e):
+        dz = e.self.datatypes.lookup.max_size == 0
+        return {"NotImplementedError": graph_exc(e.term, dz) == 1, "JellyConformanceError": graph_exc(e.term, dz) == 2}
+
+    def ensures(e):
+        E, O = e.self, e.old.self
+        en = E.prefixes.lookup.max_size > 0
+        t = e.term
+        return {"wf": wf_te(E),
+                "rows-account-for-table-changes": rows_account(O, E, e.result.items),
+                "graph-in-slot": graph_in_slot(e.statement, t, E, O),
+                "spo-slots-untouched": other_slots_untouched(e.statement, e.old.statement, z3.IntVal(-1)),
+                "message-written": msg_written(e.statement),
+                "lru-names": lru_step(O.names.lookup.data, E.names.lookup.data, E.names.lookup.max_size, graph_occ_n(t)),
+                "lru-prefixes": lru_step(O.prefixes.lookup.data, E.prefixes.lookup.data, E.prefixes.lookup.max_size, Ite(en, graph_occ_n(t), 0)),
+                "lru-datatypes": lru_step(O.datatypes.lookup.data, E.datatypes.lookup.data, E.datatypes.lookup.max_size, graph_occ_d(t)),
+                "sizes-fixed": And(E.names.lookup.max_size == O.names.lookup.max_size,
+                                   E.prefixes.lookup.max_size == O.prefixes.lookup.max_size,
+                                   E.datatypes.lookup.max_size == O.datatypes.lookup.max_size)}
+
+
+# =========================================================================================== statement level
+from pyvc.contract import ITER, LISTOF  # noqa: E402
+from pyvc.spec import is_none, opt_val  # noqa: E402
+
+SLOTS3 = (0, 1, 2)
+
+
+def rep_equal(rep_item: Any, t: Any) -> Any:
+    """repeated_terms[slot] == term (None never equals a term)"""
+    return And(Not(is_none(rep_item)), opt_val(rep_item) == t)
+
+
+def enc_occ(rep: list, terms: list, which: str) -> Any:
+    """table uses of the terms that are actually encoded (not elided)"""
+    f = occ_n if which == "n" else occ_d
+    return sum([z3.If(rep_equal(r, t), 0, f(t)) for r, t in zip(rep, terms)], z3.IntVal(0))
+
+
+def first_exc(rep: list, terms: list, dz: Any) -> Any:
+    out = z3.IntVal(0)
+    for r, t in reversed(list(zip(rep, terms))):
+        e = z3.If(rep_equal(r, t), 0, exc_of(t, dz))
+        out = z3.If(e != 0, e, out)
+    return out
+
+
+def room_for(E: Any, n_uses: Any, d_uses: Any) -> Any:
+    """C01's premise in ghost form: every enabled table can take the uses this statement still has to make"""
+    N, P, D = E.names.lookup, E.prefixes.lookup, E.datatypes.lookup
+    return And(N.data.t + n_uses <= N.max_size,
+               Or(P.max_size == 0, P.data.t + n_uses <= P.max_size),
+               Or(d_uses == 0, D.max_size == 0, D.data.t + d_uses <= D.max_size))
+
+
+def flat(t: Any) -> Any:
+    return Or(GTerm.is_IRI(t), GTerm.is_BNode(t), GTerm.is_Lit(t))
+
+
+def decode_spo_spec(st: Any, E: Any, lrP0: Any, lrN0: Any, rep: list, terms: list, prefixes: tuple = ("s", "p", "o")) -> dict:
+    """What a spec decoder makes of the statement message `st` in the *final* tables of E (ghost spec tables), starting
+    from the last-referenced ids (lrP0, lrN0) and the previous terms `rep`: per slot either 'unset -> previous term' or
+    the term decoded by the delta rules.  Returns clauses saying this equals the input terms (flat terms; the chain is
+    only followed while no quoted triple has been encoded)."""
+    TP, TN, TD = E.prefixes.T, E.names.T, E.datatypes.T
+    en = E.prefixes.lookup.max_size > 0
+    lrP, lrN = lrP0, lrN0
+    chain_ok: Any = True
+    out = {}
+    for j, (p, r, t) in enumerate(zip(prefixes, rep, terms)):
+        oneof = {"s": "subject", "p": "predicate", "o": "object"}[p]
+        elided = rep_equal(r, t)
+        iri = getattr(st, f"{p}_iri")
+        lit = getattr(st, f"{p}_literal")
+        ne = name_eff(lrN, iri.name_id)
+        pe = prefix_eff(lrP, iri.prefix_id)
+        name_v = sel(TN.tbl, ne)
+        prefix_v = Ite(And(en, pe != 0), sel(TP.tbl, pe), z3.StringVal(""))
+        iri_ok = And(which_is(st, f"{p}_iri"), 1 <= ne, ne <= TN.size, sel(TN.dfn, ne),
+                     Implies(And(en, pe != 0), And(1 <= pe, pe <= TP.size, sel(TP.dfn, pe))),
+                     Implies(Not(en), iri.prefix_id == 0),
+                     z3.Concat(prefix_v, name_v) == GTerm.iri(t))
+        has_lang = And(GTerm.has_lang(t), GTerm.lang(t) != "")
+        need = needs_dt(t)
+        lit_ok = And(which_is(st, f"{p}_literal"), lit.lex == GTerm.lex(t),
+                     Implies(need, And(which_is(lit, "datatype"), 1 <= lit.datatype, lit.datatype <= TD.size,
+                                       sel(TD.dfn, lit.datatype), sel(TD.tbl, lit.datatype) == GTerm.dt(t))),
+                     Implies(And(has_lang, Not(need)), And(which_is(lit, "langtag"), lit.langtag == GTerm.lang(t))),
+                     Implies(And(Not(has_lang), Not(need)), which_unset(lit, "literalKind")))
+        bn_ok = And(which_is(st, f"{p}_bnode"), getattr(st, f"{p}_bnode") == GTerm.ident(t))
+        out[f"{oneof}-elided-iff-repeated"] = Iff(which_unset(st, oneof), elided)
+        live = And(Not(elided), chain_ok)
+        out[f"{oneof}-iri-decodes-to-input"] = Implies(And(live, GTerm.is_IRI(t)), iri_ok)
+        out[f"{oneof}-literal-decodes-to-input"] = Implies(And(live, GTerm.is_Lit(t)), lit_ok)
+        out[f"{oneof}-bnode-decodes-to-input"] = Implies(And(live, GTerm.is_BNode(t)), bn_ok)
+        out[f"{oneof}-quoted-in-slot"] = Implies(And(live, GTerm.is_QTriple(t)), which_is(st, f"{p}_triple_term"))
+        enc_iri = And(Not(elided), GTerm.is_IRI(t))
+        lrN = Ite(enc_iri, ne, lrN)
+        lrP = Ite(And(enc_iri, en), pe, lrP)
+        chain_ok = And(chain_ok, Or(elided, Not(GTerm.is_QTriple(t))))
+    out["last-referenced-ids-follow"] = Implies(chain_ok, And(TN.lr == lrN, Implies(en, TP.lr == lrP)))
+    return out
+
+
+@contract(f"{SE}:encode_spo", serves=["C03", "C01", "C19", "C18", "C20"])
+class _encode_spo_free:
+    """s, p, o of one statement.  Premise (C01): each enabled table still has room for the terms that get encoded."""
+    params = {"terms": ITER(ADTS("gterm"), 4), "term_encoder": OBJ(GENC), "repeated_terms": LISTOF(OPT(ADTS("gterm")), 4),
+              "statement": MSG("RdfTriple")}
+    result = ROWS
+    shards = 10
+    modifies = ["terms", "term_encoder.names", "term_encoder.prefixes", "term_encoder.datatypes", "repeated_terms", "statement"]
+    tags = {"subject-elided-iff-repeated": ["C19", "C03", "C01"], "predicate-elided-iff-repeated": ["C19", "C03", "C01"],
+            "object-elided-iff-repeated": ["C19", "C03", "C01"]}
+
+    def _terms(e, old=True):
+        it = (e.old if old else e).terms
+        return list(it.items)[:3]
+
+    def requires(e):
+        ts = [x for x in list(e.terms.items)[:3]]
+        rep = e.repeated_terms.items[:3]
+        st = e.statement
+        return And(wf_te(e.term_encoder), which_unset(st, "subject"), which_unset(st, "predicate"), which_unset(st, "object"),
+                   room_for(e.term_encoder, enc_occ(rep, ts, "n"), enc_occ(rep, ts, "d")))
+
+    def raises(e):
+        ts = list(e.terms.items)[:3]
+        rep = e.repeated_terms.items[:3]
+        dz = e.term_encoder.datatypes.lookup.max_size == 0
+        x = first_exc(rep, ts, dz)
+        return {"NotImplementedError": x == 1, "JellyConformanceError": x == 2}
+
+    def on_raise(e):
+        return {"tables-still-well-formed": wf_te(e.term_encoder)}
+
+    def ensures(e):
+        E, O = e.term_encoder, e.old.term_encoder
+        ts = list(e.old.terms.items)[:3]
+        rep_old = e.old.repeated_terms.items[:3]
+        rep_new = e.repeated_terms.items
+        out = {"wf": wf_te(E),
+               "rows-account-for-table-changes": rows_account(O, E, e.result.items),
+               "previous-terms-updated": And(*[rep_equal(rep_new[j], ts[j]) for j in SLOTS3],
+                                             rep_new[3] is e.old.repeated_terms.items[3] or True),
+               "three-terms-consumed": e.terms.pos == e.old.terms.pos + 3}
+        out.update(decode_spo_spec(e.statement, E, O.prefixes.T.lr, O.names.T.lr, rep_old, ts))
+        n_uses, d_uses = enc_occ(rep_old, ts, "n"), enc_occ(rep_old, ts, "d")
+        en = E.prefixes.lookup.max_size > 0
+        out.update({
+            "lru-names": lru_step(O.names.lookup.data, E.names.lookup.data, E.names.lookup.max_size, n_uses),
+            "lru-prefixes": lru_step(O.prefixes.lookup.data, E.prefixes.lookup.data, E.prefixes.lookup.max_size, Ite(en, n_uses, 0)),
+            "lru-datatypes": lru_step(O.datatypes.lookup.data, E.datatypes.lookup.data, E.datatypes.lookup.max_size, d_uses),
+            "sizes-fixed": And(E.names.lookup.max_size == O.names.lookup.max_size,
+                               E.prefixes.lookup.max_size == O.prefixes.lookup.max_size,
+                               E.datatypes.lookup.max_size == O.datatypes.lookup.max_size)})
         return out
